@@ -674,8 +674,10 @@ func (cc *ChunkCollection) ToMarkdownWithOptions(opts MarkdownOptions) string {
 			}
 		}
 
-		// Check if this is a new section
-		isNewSection := chunk.Metadata.SectionTitle != "" && chunk.Metadata.SectionTitle != currentSection
+		// Check if this is a new section. A heading chunk always opens its section, also
+		// when its title repeats the title of the section before it.
+		isHeadingChunk := len(chunk.Metadata.ElementTypes) == 1 && chunk.Metadata.ElementTypes[0] == "heading"
+		isNewSection := chunk.Metadata.SectionTitle != "" && (chunk.Metadata.SectionTitle != currentSection || isHeadingChunk)
 
 		if isNewSection {
 			currentSection = chunk.Metadata.SectionTitle
